@@ -247,6 +247,29 @@ fn check_one<CS: BbsCiphersuite>(rep: &Report, ck: &str, c: &Case) -> CheckResul
             cx.expect_reject("extra-disclosed-claimed", ver(&d3, &i3, hdr, phd, pk), || "a hidden message disclosed alongside (true value)".into())?;
         }
     }
+    {
+        // list-shape edits: a never-signed message without an index of its own, an index without a message, a
+        // second entry under an index that is already there (before or after the genuine pair)
+        let never = b"never signed".to_vec();
+        let mut d2 = dm.clone();
+        d2.push(never.clone());
+        cx.expect_reject("surplus-disclosed-message", ver(&d2, &idx, hdr, phd, pk), || "one more message than indexes".into())?;
+        if let Some(&hidden) = (0..l).filter(|i| !idx.contains(i)).collect::<Vec<_>>().last() {
+            let mut i2 = idx.clone();
+            i2.push(hidden);
+            i2.sort();
+            cx.expect_reject("surplus-disclosed-index", ver(&dm, &i2, hdr, phd, pk), || "one more index than messages".into())?;
+        }
+        for (k, after) in [(0usize, true), (0, false), (dm.len().saturating_sub(1), true)] {
+            if k < dm.len() {
+                let at = if after { k + 1 } else { k };
+                let (mut d3, mut i3) = (dm.clone(), idx.clone());
+                d3.insert(at, never.clone());
+                i3.insert(at, idx[k]);
+                cx.expect_reject("repeated-disclosed-index", ver(&d3, &i3, hdr, phd, pk), || format!("index {} twice, forged entry {}", idx[k], if after { "after" } else { "before" }))?;
+            }
+        }
+    }
     for (which, cur) in [("header", &header), ("ph", &ph)] {
         let hb = cur.clone().unwrap_or_default();
         let mut edits: Vec<Option<Vec<u8>>> = vec![];
@@ -389,6 +412,26 @@ fn check_one<CS: BbsCiphersuite>(rep: &Report, ck: &str, c: &Case) -> CheckResul
         let p = G1Projective::GENERATOR * scalar_from_seed(&mut st);
         let fp = assemble(&r, &pk_g2, &gens, &hb, &phb, &claimed_idx, &cms, &api, p, p * t, Some(t), bv * k2, Some(k2), &mut st);
         try_forgery(format!("A=P,B=tP({}),D=kBv", tn), &fp)?;
+    }
+    // third family: points outside the prime-order subgroup.  Q has order dividing the cofactor, so it pairs
+    // trivially with everything; Abar = Q, Bbar = -Q cancel in any test applied to a sum of the proof's points.
+    {
+        let q = torsion_g1((c.seed % 3) as usize);
+        let neg1 = -Scalar::ONE;
+        let pp = G1Projective::GENERATOR * scalar_from_seed(&mut st);
+        for (name, a, b, t, d, k) in [
+            ("A=Q,B=-Q,D=Bv", q, -q, Some(neg1), bv, Some(Scalar::ONE)),
+            ("A=Q,B=-Q,D=kBv", q, -q, Some(neg1), bv * k2, Some(k2)),
+            ("A=Q,B=Q,D=Bv", q, q, Some(Scalar::ONE), bv, Some(Scalar::ONE)),
+            ("A=Q,B=O,D=Bv", q, o, Some(Scalar::ZERO), bv, Some(Scalar::ONE)),
+            ("A=Q,B=2Q,D=kBv", q, q.double(), Some(Scalar::from(2u64)), bv * k2, Some(k2)),
+            ("A=P+Q,B=P-Q,D=Bv", pp + q, pp - q, None, bv, Some(Scalar::ONE)),
+            ("A=-2Q,B=Q,D=Bv+Q", -q.double(), q, None, bv + q, None),
+            ("A=O,B=O,D=Bv+Q", o, o, Some(Scalar::ZERO), bv + q, None),
+        ] {
+            let fp = assemble(&r, &pk_g2, &gens, &hb, &phb, &claimed_idx, &cms, &api, a, b, t, d, k, &mut st);
+            try_forgery(format!("torsion:{}", name), &fp)?;
+        }
     }
     // negative control of the assembling code: with t = sk the same program yields a proof that
     // an honest verifier must accept (the signer can sign anything) - both as octets and as object
@@ -547,10 +590,10 @@ pub fn run(ctx: &Ctx, rep: &Report) -> Meta {
     run_cases(ctx, rep, "edits-and-forgeries", ctx.tier.pick(64, 800), 100, strat, |c| check(rep, "edits-and-forgeries", c));
     Meta {
         rule: "honest (pk, sig, msgs L=1..8, D, header, ph, proof) then (a) statement edits: every disclosed message changed / dropped, every disclosed index moved to every other position (as given and re-sorted), \
-               swaps, extra claims, header / ph edits and exchange, pk edits, every whole-scalar removal / duplication / insertion / append, cross-suite, blind interface; \
+               swaps, extra claims, list shapes (one more message than indexes, one more index than messages, a never-signed entry under an index that is already listed, before or after the genuine pair), header / ph edits and exchange, pk edits, every whole-scalar removal / duplication / insertion / append, cross-suite, blind interface; \
                (b) single-bit flips of the proof octets (all bits for the all-bit-flips proofs with U in {0,1,3}; 96 sampled bits otherwise); \
                (c) attacker programs from public data only: Abar, Bbar in {O, Bv, P1, Q1, H1, rnd}^2 x D in {O, Bv, k*Bv, P1, rnd} with responses solving T1/T2 where possible, \
-               the (P, t*P, k*Bv) family that only the pairing stops, each as octets and as a serde-built object, plain and blind verifier; negative control t = sk must be accepted; \
+               the (P, t*P, k*Bv) family that only the pairing stops, points of cofactor order Q outside the subgroup (Abar = Q with Bbar in {-Q, Q, O, 2Q}, P+-Q, D = Bv + Q: pairs and triples that cancel in a sum), each as octets and as a serde-built object, plain and blind verifier; negative control t = sk must be accepted; \
                size sweep over L in 9..=40 (quick) / 9..=100 (thorough) and 63..65 with sampled positions; concurrent-verifiers: 16 threads verifying their own honest proof and an edited statement in turn with transcripts above 1 KiB; half of the cases after a warm-up history; oracle: every edited / flipped / forged proof is rejected; non-trivial = honest case with all three groups executed; evaluations = rejected-verification checks"
             .into(),
         assumptions: vec![
